@@ -60,8 +60,7 @@ theorem uiChar_upperChar {c : Char} (h : UiChar c) : UiChar (upperChar c) := by
     have h4 := hne '\t' (by decide)
     have h5 := hne '\r' (by decide)
     have h6 := hne '\n' (by decide)
-    exact ⟨by simp [isNetlocDelim, h1, h2, h3], hne '[' (by decide), hne ']' (by decide),
-      by simp [isUnsafeUrlChar, h4, h5, h6]⟩
+    exact ⟨by simp [isNetlocDelim, h1, h2, h3], by simp [isUnsafeUrlChar, h4, h5, h6]⟩
   · rw [if_neg hl] at hn
     have : upperChar c = c := char_eq_of_toNat hn
     rw [this]; exact h
